@@ -298,6 +298,17 @@ func (r *rig) judge() *gx.Outcome {
 			ids     []string
 			connErr bool // the request carrying it ended in a connection-level failure (no response)
 		}
+		// sequence numbers as handed out: within one epoch a partition's numbers are 0, 1, 2, ... without a gap and
+		// without re-use ("each batch starts at the sequence number following the previous batch's last record")
+		nextSeq := map[string]int32{}
+		for _, a := range r.seqLog {
+			k := fmt.Sprintf("%s@%d", a.key, a.epoch)
+			if a.seq != nextSeq[k] {
+				out.Violate("C05", "sequence-not-consecutive-within-epoch", "the producer handed out sequence number %d for %s in epoch %d, expected %d (numbers handed out so far: %v) (%s); %s", a.seq, a.key, a.epoch, nextSeq[k], r.seqLog, cfg, summary())
+				break
+			}
+			nextSeq[k] = a.seq + 1
+		}
 		seenB := map[key][]*sent{}
 		// "a resent batch carries the identical sequence range, epoch and records": a batch handed back to a broker
 		// worker as a whole (retryBatch) is recognisable in the trace - between the answer to its previous
